@@ -407,6 +407,27 @@ def unaryWrap (o : ClientObs) : ClientObs :=
     { o with msgs := [] }
   | _ :: _ :: _, _ => { o with msgs := [], result := some (localErr codeUnknown) }  -- "unary stream has multiple messages"
 
+/-! ### the unary Connect request of a message the codec refused (fix F34) -/
+
+/-- what the handler side is given by a unary Connect call whose request message could (`some m`)
+    or could not (`none`) be encoded: a body, or an aborted request. After the fix a refused
+    message aborts the request; before, the request was closed normally and its empty body was
+    read as the zero message. -/
+inductive UnaryRequestOnWire where
+  | body (b : Bytes)
+  | aborted
+  deriving DecidableEq, Repr
+
+def unaryRequestOnWire (encoded : Option Bytes) : UnaryRequestOnWire :=
+  match encoded with
+  | some b => .body b
+  | none => .aborted
+
+def unaryRequestOnWirePinned (encoded : Option Bytes) : UnaryRequestOnWire :=
+  match encoded with
+  | some b => .body b
+  | none => .body []
+
 def clientDecode (decStatus : Bytes → Option WireErr) (cfg : CCfg) (statusText : Bytes) (r : Resp) : ClientObs :=
   let streamObs :=
     match cfg.proto with
